@@ -282,11 +282,13 @@ def overwrite_family(ck, DP):
     rng = random_mod.Random(ck.seed + 15)
     for rep in range(6 if ck.tier == "quick" else 40):
         lay = sorted(rng.sample(range(6), rng.randint(1, 4)))
-        fm = rng.choice(["json", "txt"])
+        fm0 = rng.choice(["json", "txt", "mixed"])
         d = tempfile.mkdtemp(dir=ck.scratch) + "/"
         objs = [build_obj(DP, lay, hand_obj(lay, rng), {"qubits_layout": lay, "device": "hand-%d" % k, "k": k}) for k in range(2)]
         seq = [0, 1, 0, 1, 1, 0][:rng.randint(3, 6)]
         for step, k in enumerate(seq):
+            # "mixed": the location already holds the OTHER format's files of another parameter set; each format is its own snapshot
+            fm = fm0 if fm0 != "mixed" else ["json", "txt"][step % 2]
             ck.count("overwrite_same_location", 1, key=(rep, step))
             try:
                 with quiet(), warnings.catch_warnings():
